@@ -210,6 +210,44 @@ impl VRead {
             },
     { unimplemented!() }
 }
+/// the slice `BufRead::fill_buf` hands out (owned here): SOME non-empty prefix of what remains (how much is the buffer's
+/// business: 8 KiB in std's BufReader), empty exactly at end of file.  Not used by the code today: present so that an
+/// edit that takes the schema "straight out of the read buffer" is judged.
+#[verifier::external_body]
+pub struct VBuf { _p: u8 }
+impl VBuf {
+    pub uninterp spec fn view(&self) -> Seq<u8>;
+    #[verifier::external_body]
+    pub fn len(&self) -> (r: usize) ensures r == self@.len() { unimplemented!() }
+    /// `buf.iter().position(|b| *b == b'\0')`
+    #[verifier::external_body]
+    pub fn position_nul(&self) -> (r: Option<usize>)
+        ensures r matches Some(i) ==> i < self@.len() && self@[i as int] == 0u8 && forall|k: int| 0 <= k < i ==> self@[k] != 0u8,
+            r is None ==> forall|k: int| 0 <= k < self@.len() ==> self@[k] != 0u8,
+    { unimplemented!() }
+    /// `buf[..n].to_vec()`
+    #[verifier::external_body]
+    pub fn prefix_to_vec(&self, n: usize) -> (r: Vec<u8>)
+        requires n <= self@.len(),
+        ensures r@ == self@.subrange(0, n as int),
+    { unimplemented!() }
+}
+impl VRead {
+    #[verifier::external_body]
+    pub fn fill_buf(&mut self) -> (r: Result<VBuf, IoError>)
+        ensures final(self).content() == old(self).content(), final(self).env_ok() == old(self).env_ok(), final(self).pos() == old(self).pos(),
+            r matches Ok(b) ==> {
+                &&& b@.len() <= isize::MAX
+                &&& (0 <= old(self).pos() < old(self).content().len() ==> 0 < b@.len() <= old(self).content().len() - old(self).pos()
+                        && b@ == old(self).content().subrange(old(self).pos(), old(self).pos() + b@.len()))
+                &&& (old(self).pos() >= old(self).content().len() ==> b@.len() == 0)
+            },
+    { unimplemented!() }
+    #[verifier::external_body]
+    pub fn consume(&mut self, n: usize)
+        ensures final(self).content() == old(self).content(), final(self).env_ok() == old(self).env_ok(), final(self).pos() == old(self).pos() + n,
+    { unimplemented!() }
+}
 proof fn lemma_nul_at(c: Seq<u8>, from: int)
     requires 0 <= from <= c.len(),
     ensures from <= nul_at(c, from) <= c.len(),
@@ -228,12 +266,15 @@ proof fn lemma_nul_at(c: Seq<u8>, from: int)
 
 impl BigBedRead {
 //@extract method bigtools/src/bbi/bigbedread.rs autosql "^impl<R: BBIFileRead> BigBedRead<R>"
+//@rule R15
 //@rule R16
 //@sub /Result<Option<String>, BBIReadError>/ => Result<Option<Text>, BBIReadError> min=1
 //@sub /self\.reader\(\)\.raw_reader\(\)/ => &mut self.read min=1
 //@sub /let mut reader = BufReader::new\(reader\);\n/ => "" min=0
 //@sub /reader\.seek\(SeekFrom::Start\(([^;]*)\)\)\?;/ => reader.seek_start(\1)?; min=0
 //@sub /reader\.read_until\(b'\\0', &mut (\w+)\)\?;/ => reader.read_until_nul(&mut \1)?; min=0
+//@sub /(\w+)\.iter\(\)\.position\(\|(\w+)\| \*\2 == b'\\0'\)/ => \1.position_nul() min=0
+//@sub /(\w+)\[\.\.([^\]]+)\]\.to_vec\(\)/ => \1.prefix_to_vec(\2) min=0
 //@sub /String::from_utf8\((\w+)\)\s*\.map_err\(\|_\| (BBIReadError::InvalidFile)\("([^"]*)"\.to_owned\(\)\)\)\?/ => (match string_from_utf8(\1) { Ok(t__) => t__, Err(_) => return Err(\2(err_text("\3"))) }) min=0
 //@ret r
 //@sig
